@@ -686,6 +686,18 @@ def run_scenario(tree, wpath, sc, maxq=None, world=None):
     inc0 = w.incarnation
     fault_inc = mode.get("inc", 1) if mode["kind"] == "fault" else 1     # which start of the daemon (1 = the first) runs under the fault
     try:
+        bl = sc.get("backlog")
+        if bl:
+            # mail accepted while the daemon was down for a long time ("backlog": {"n": messages, "age": seconds}): the first n messages are
+            # queued before the daemon starts and the clock is moved on, so they are older than the 36-hour collection limit when the
+            # start-up sweep and the todo scan race each other - fully accepted mail is not debris
+            for _ in range(min(int(bl["n"]), len(pending))):
+                mi, m = pending.pop(0)
+                rc, n = w.inject(L(m["sender"]), [L(r) for r in m["rcpts"]], L(m.get("body", "Subject: x\n\nbody\n")))
+                if rc == 0 and n is not None:
+                    led.accepted(n, "input", L(m["sender"]), [L(r) for r in m["rcpts"]], mi)
+            w.advance(int(bl["age"]))
+            res.classes.add("backlog_older_than_36h" if bl["age"] > 129600 else "backlog_before_start")
         w.start(crash=crash, fault=fault if fault_inc == 1 else None)
         while True:
             if w.qcount > maxq or (idle_advances > 8 and 0 in (led.limit(0), led.limit(1)) and not finishing):
